@@ -34,11 +34,11 @@ Definition desc_set (d : pdesc) (s i : Z) : pdesc :=
 Definition letter_z (s : Z) : bool := (s =? 2) || (s =? 3).
 Definition letter_x (s : Z) : bool := (s =? 1) || (s =? 2).
 
-Fixpoint upd {A} (k : nat) (v : A) (l : list A) : list A :=
+Fixpoint lupd {A} (k : nat) (v : A) (l : list A) : list A :=
   match l, k with
   | [], _ => []
   | _ :: t, O => v :: t
-  | h :: t, Datatypes.S k' => h :: upd k' v t
+  | h :: t, Datatypes.S k' => h :: lupd k' v t
   end.
 Fixpoint falses (n : nat) : list bool :=
   match n with O => [] | Datatypes.S n' => false :: falses n' end.
@@ -50,7 +50,7 @@ Definition arg_step (n : Z) (st : option (list bool * list bool)) (a : Z * Z) :=
   | Some (z, x) =>
     let '(s, i) := a in
     if (i <? 0) || (n <=? i) then None
-    else Some (upd (Z.to_nat i) (letter_z s) z, upd (Z.to_nat i) (letter_x s) x)
+    else Some (lupd (Z.to_nat i) (letter_z s) z, lupd (Z.to_nat i) (letter_x s) x)
   end.
 (** set_pauli(s, i): numpy indexing, -n <= i < n (negative indices wrap), else IndexError *)
 Definition set_step (n : Z) (st : option (list bool * list bool)) (a : Z * Z) :=
@@ -59,7 +59,7 @@ Definition set_step (n : Z) (st : option (list bool * list bool)) (a : Z * Z) :=
   | Some (z, x) =>
     let '(s, i) := a in
     if (i <? - n) || (n <=? i) then None
-    else let k := Z.to_nat (i mod n) in Some (upd k (letter_z s) z, upd k (letter_x s) x)
+    else let k := Z.to_nat (i mod n) in Some (lupd k (letter_z s) z, lupd k (letter_x s) x)
   end.
 (** the PauliString a descriptor stands for, on n qubits *)
 Definition build (n : Z) (d : pdesc) : option pstr :=
